@@ -739,6 +739,12 @@ def plan_walk(cfg, events, case, want):
             elif name in ("planAppend", "planClear", "planRemove"):
                 if name == "planAppend":
                     appended[inst] = True
+                    # the result of append: true exactly when there was room
+                    if want == "C10" and known.get(inst) is not None and api is not None and api.f.get("ret") in ("0", "1"):
+                        room = len(known[inst]) < eff_cap(cfg)
+                        if (api.f["ret"] == "1") != room:
+                            return "op%d: plan().change…() returned %s with %d task(s) in a plan of capacity %d; appending succeeds exactly when fewer than capacity tasks are present" % (
+                                op, "true" if api.f["ret"] == "1" else "false", len(known[inst]), eff_cap(cfg))
                 if known.get(inst) is not None:
                     known[inst] = apply_plan_edit(cfg, known[inst], [name] + w[2:])
                 if name == "planClear":
